@@ -333,11 +333,31 @@ func genCtl(r *rand.Rand, b baseSet, zero bool) (*ctlJ, string) {
 	tgt := func(c *ctlJ) {
 		v := genVar(r)
 		if r.Intn(4) != 0 {
-			// aim at a variable some rule really uses
+			// aim at a variable some rule really uses (chained rules first: their members are looked up
+			// under the parent id), and for the by-id form at that very rule
 			it := b.src[r.Intn(len(b.src))]
+			for _, cand := range b.src {
+				if len(cand.Links) > 1 && r.Intn(2) == 0 {
+					it = cand
+				}
+			}
 			if it.Marker == "" {
 				l := it.Links[r.Intn(len(it.Links))]
-				v = l.Targets[r.Intn(len(l.Targets))].Var
+				if len(it.Links) > 1 && r.Intn(3) != 0 {
+					l = it.Links[1+r.Intn(len(it.Links)-1)]
+				}
+				pos := []titemJ{}
+				for _, t := range l.Targets {
+					if !t.Neg {
+						pos = append(pos, t)
+					}
+				}
+				if len(pos) > 0 {
+					v = pos[r.Intn(len(pos))].Var
+				}
+				if c.Spec != nil && r.Intn(3) != 0 {
+					c.Spec = &specJ{A: it.ID}
+				}
 			}
 		}
 		k := genKey(r, v)
